@@ -140,6 +140,12 @@ func decodeStruct(p Paragraph, into reflect.Value) error {
 	 * values. */
 	paragraphType := reflect.TypeOf(Paragraph{})
 
+	if into.Type() == paragraphType {
+		/* a Paragraph decodes into a Paragraph as it is */
+		into.Set(reflect.ValueOf(p))
+		return nil
+	}
+
 	/* Right, now, we're going to decode a Paragraph into the struct */
 
 	for i := 0; i < into.NumField(); i++ {
